@@ -67,6 +67,7 @@ def reassembly_conservation(k, cname):
     cstart = None            # (seq, time the client began that packet)
     srow = None
     ssince = 0               # time at which the server's reassembly last began a packet (sequence number changed / length fell)
+    tainted = None           # the client packet (seq, start time) during which the server was seen ahead of the client
     for ev in k.log:
         if ev[1] != "wait":
             continue
@@ -87,6 +88,15 @@ def reassembly_conservation(k, cname):
                 continue
             if row["in_seq"] != cst[3] or cstart is None or ssince < cstart[1]:
                 continue                              # the server is (still) on another packet
+            if row["in_frag"] > cst[4]:
+                # The server is at a later fragment number than the client has reached: it took a fragment of the packet that
+                # had this 3-bit sequence number eight packets ago (a query delayed that long) for a fragment of this one.
+                # What it puts together then is not this packet and will not pass zlib's checksum; the property speaks of what
+                # is written to the tun device, so this is C01's other oracle's business.  The packet is not judged here (M29).
+                tainted = cstart
+                st["reassembly_packets_mixed_with_a_stale_fragment"] = st.get("reassembly_packets_mixed_with_a_stale_fragment", 0) + 1
+            if tainted == cstart:
+                continue
             st["reassembly_points_compared"] += 1
             sent = cst[6] + cst[7]
             if row["in_len"] > sent and not viol:
